@@ -239,6 +239,33 @@ example : (eigFactor (1 : Matrix (Fin 2) (Fin 2) ℝ) ![4, 9])ᵀ * eigFactor 1 
     (by intro i; fin_cases i <;> simp)
   exact this
 
+/-- **block-wise fallback** (repair c980deb: each diagonal block of `S + P (+ C)` — one per term — is factored on its
+own): if `A` and the assembled `L` are block diagonal w.r.t. a labelling `ℓ` of the coefficients and every block of `L`
+factors its block of `A`, then `LᵀL = A` — the contract of the solve holds for the whole penalty, and the cut-off applied
+in one block never sees another term's eigenvalues -/
+theorem block_fallback_meets_contract {κ : Type} [DecidableEq κ] (ℓ : ι → κ) (A L : Matrix ι ι ℝ)
+    (hA : ∀ i j, ℓ i ≠ ℓ j → A i j = 0) (hL : ∀ k i, ℓ k ≠ ℓ i → L k i = 0)
+    (hblock : ∀ i j, ℓ i = ℓ j → ∑ k ∈ Finset.univ.filter (fun k => ℓ k = ℓ i), L k i * L k j = A i j) :
+    Lᵀ * L = A := block_factor_contract ℓ A L hA hL hblock
+
+/-- what is factored inside one block depends on that block of `L` only: replacing eigenvalues in the block of a heavily
+penalised term leaves `(LᵀL)_{ij}` of every other term's block unchanged -/
+theorem block_fallback_is_local {κ : Type} [DecidableEq κ] (ℓ : ι → κ) (L L' : Matrix ι ι ℝ)
+    (hL : ∀ k i, ℓ k ≠ ℓ i → L k i = 0) (hL' : ∀ k i, ℓ k ≠ ℓ i → L' k i = 0) (b : κ)
+    (hsame : ∀ k i, ℓ k = b → ℓ i = b → L k i = L' k i) (i j : ι) (hi : ℓ i = b) (hj : ℓ j = b) :
+    (Lᵀ * L) i j = (L'ᵀ * L') i j := block_factor_local ℓ L L' hL hL' b hsame i j hi hj
+
+-- non-vacuity: two 1 x 1 blocks, A = diag(4, 9), L = diag(2, 3)
+example : (diagonal ![(2:ℝ), 3])ᵀ * diagonal ![(2:ℝ), 3] = diagonal ![(4:ℝ), 9] := by
+  apply block_fallback_meets_contract (fun i : Fin 2 => i) (diagonal ![(4:ℝ), 9]) (diagonal ![(2:ℝ), 3])
+  · intro i j h; exact diagonal_apply_ne _ h
+  · intro k i h; exact diagonal_apply_ne _ h
+  · intro i j h
+    subst h
+    have : Finset.univ.filter (fun k : Fin 2 => k = i) = {i} := by ext k; simp
+    rw [this, Finset.sum_singleton]
+    fin_cases i <;> simp [diagonal] <;> norm_num
+
 end eig_fallback
 
 /-! ### tie to the source by translation of the formulas (`gen_formula_*`)
